@@ -70,7 +70,7 @@ class Gauss:
         elif nPg == 6:
             a = 0.445948490915965
             b = 0.091576213509771
-            p1 = 0.11169079483905
+            p1 = 0.1116907948390055
             p2 = 0.054975871827661
 
             ksis = [b, 1 - 2 * b, b, a, a, 1 - 2 * a]
